@@ -104,6 +104,10 @@ def rule_mode_and_type(ctx, rep):
         "stateful after stateless-neutral code": ("#pragma version 8\ntxn Fee\npop\nbyte \"k\"\nbox_del\nreturn\n", 8, "STATEFUL", "ApprovalProgram"),
         "stateful only in a subroutine": ("#pragma version 6\ncallsub f\nint 1\nreturn\nf:\nint 0\nbalance\npop\nretsub\n", 6, "STATEFUL", "ApprovalProgram"),
         "version 2": ("#pragma version 2\nint 1\nreturn\n", 2, "ANY", "LogicSig"),
+        # the AVM checks every instruction of the program against the mode, reachable or not
+        "stateful only in code after return": ("#pragma version 6\nint 1\nreturn\nint 0\napp_global_get\npop\n", 6, "STATEFUL", "ApprovalProgram"),
+        "stateless only under a label nobody jumps to": ("#pragma version 6\nint 1\nreturn\ndead:\narg 0\npop\nint 1\nreturn\n", 6, "STATELESS", "LogicSig"),
+        "stateful only in an uncalled subroutine": ("#pragma version 6\nint 1\nreturn\nf:\nbyte \"m\"\nlog\nretsub\n", 6, "STATEFUL", "ApprovalProgram"),
     }
     for name, (src, ver, mode, ctype) in progs.items():
         try:
